@@ -73,7 +73,26 @@ func (e *Engine) doCall(st *State, fr *Frame, res ssa.Value, c *ssa.CallCommon, 
 	if callee == nil {
 		// dynamic function value
 		e.callAssertHooks(st, fr, "<dynamic>", args, ins.Pos())
-		e.havocCall(st, res, c, args, "dynamic call in "+shortFn(fr.fn), true)
+		eff := &Effect{Keys: map[string]bool{}}
+		e.P.callEffect(eff, c, fr.fn)
+		var cands []*ssa.Function
+		if sig, ok := c.Value.Type().Underlying().(*types.Signature); ok {
+			e.P.buildCallGraph()
+			for _, f := range e.P.cgDyn {
+				if sameSig(f.Signature, sig) {
+					cands = append(cands, f)
+				}
+			}
+		}
+		e.havocGhosts(st, cands, false)
+		for _, a := range args {
+			e.escape(st, a)
+		}
+		e.havocCalls["dynamic call ("+effSummary(eff)+")"]++
+		e.havocEffect(st, eff, "dynamic call in "+shortFn(fr.fn))
+		if rt := e.resultType(c); rt != nil {
+			e.bindResult(st, res, e.freshVal(st, "r", rt))
+		}
 		return nil, true
 	}
 	return e.callStatic(st, fr, res, callee, env, args, c, ins.Pos())
@@ -107,48 +126,51 @@ func (e *Engine) callStatic(st *State, fr *Frame, res ssa.Value, callee *ssa.Fun
 	if e.canInline(callee, st) {
 		return e.inline(st, fr, res, callee, env, args)
 	}
-	// 4. havoc
-	full := true
-	why := "no contract: " + shortFn(callee)
-	if !inFalco(callee) {
+	// 4. havoc exactly what the callee (and everything it can reach) may write
+	e.havocGhosts(st, []*ssa.Function{callee}, false)
+	eff := e.P.effectOf(callee)
+	if inFalco(callee) {
+		e.havocCalls[shortFn(callee)+" ("+effSummary(eff)+")"]++
+	} else {
 		switch e.P.externEffect(callee, c) {
 		case "pure":
-			full = false
 			e.usedExterns[name+" (assumed pure)"] = true
-			rt := e.resultType(c)
-			if rt != nil {
+			if rt := e.resultType(c); rt != nil {
 				e.bindResult(st, res, e.pureResult(st, "ext."+name, args, rt, e.P.deterministic(callee)))
 			}
 			return nil, true
 		case "shallow":
-			full = false
 			e.usedExterns[name+" (assumed to write only through its arguments)"] = true
-		default:
-			e.usedExterns[name+" (havoc)"] = true
-		}
-	} else {
-		eff := e.P.effectOf(callee)
-		if eff.full() && callee.Pkg != nil && e.fn.Pkg != nil && callee.Pkg != e.fn.Pkg && !e.noVisibilityFrame() {
-			// Go visibility: code of another package (which cannot import this one) cannot name this
-			// package's struct fields; callbacks into this package during the call are assumed away
-			pfx := "F:" + strings.TrimPrefix(e.fn.Pkg.Pkg.Path(), falcoMod+"/") + "."
-			eff = &Effect{All: true, Except: pfx, Keys: map[string]bool{}}
-			e.visibilityFrames[shortFn(callee)] = true
-		}
-		e.havocCalls[shortFn(callee)+" ("+eff.String()+")"]++
-		if !eff.full() {
-			for _, a := range args {
-				e.escape(st, a)
-			}
-			e.havocEffect(st, eff, why)
-			if rt := e.resultType(c); rt != nil {
-				e.bindResult(st, res, e.freshVal(st, "r", rt))
-			}
+			e.havocCall(st, res, c, args, "extern", false)
 			return nil, true
+		default:
+			e.usedExterns[name+" (external: writes external memory and calls back what it is given)"] = true
 		}
 	}
-	e.havocCall(st, res, c, args, why, full)
+	for _, a := range args {
+		e.escape(st, a)
+	}
+	if !inFalco(callee) {
+		for _, a := range args {
+			e.havocReach(st, a)
+		}
+	}
+	e.havocEffect(st, eff, "no contract: "+shortFn(callee))
+	if rt := e.resultType(c); rt != nil {
+		e.bindResult(st, res, e.freshVal(st, "r", rt))
+	}
 	return nil, true
+}
+
+func effSummary(eff *Effect) string {
+	if eff.full() {
+		return "writes:anything"
+	}
+	n := len(eff.Keys)
+	if n <= 6 {
+		return eff.String()
+	}
+	return fmt.Sprintf("writes:%d arrays", n)
 }
 
 // forceInline: the root contract asks for callee bodies instead of their contracts
@@ -572,8 +594,19 @@ func (e *Engine) invoke(st *State, fr *Frame, res ssa.Value, c *ssa.CallCommon, 
 		}
 		return nil, true
 	}
-	e.havocCalls["invoke "+typeName(c.Value.Type())+"."+mname]++
-	e.havocCall(st, res, c, append([]Val{recv}, args...), "dynamic dispatch "+mname, full)
+	_ = full
+	eff := &Effect{Keys: map[string]bool{}}
+	e.P.callEffect(eff, c, fr.fn)
+	e.havocCalls["invoke "+typeName(c.Value.Type())+"."+mname+" ("+effSummary(eff)+")"]++
+	e.havocGhosts(st, e.P.methodsImplementing(c.Value.Type(), c.Method), false)
+	for _, a := range args {
+		e.escape(st, a)
+	}
+	e.escape(st, recv)
+	e.havocEffect(st, eff, "dynamic dispatch "+mname)
+	if rt := e.resultType(c); rt != nil {
+		e.bindResult(st, res, e.freshVal(st, "r", rt))
+	}
 	return nil, true
 }
 
@@ -943,6 +976,9 @@ func (e *Engine) applyContract(st *State, fr *Frame, res ssa.Value, callee *ssa.
 		}
 	}
 	pre := st.clone()
+	if !con.has("pure") {
+		e.havocGhosts(st, []*ssa.Function{callee}, false)
+	}
 	// frame
 	switch {
 	case con.has("pure"):
@@ -1169,6 +1205,16 @@ func (e *Engine) callAssertHooks(st *State, fr *Frame, calleeName string, args [
 			st.flags["called:"+c.Args[0]] = "true"
 		}
 	}
+	if e.con.has("count-calls") {
+		n := 0
+		fmt.Sscanf(st.flags["calls:"+lastName(calleeName)], "%d", &n)
+		st.flags["calls:"+lastName(calleeName)] = fmt.Sprint(n + 1)
+	}
+	for _, c := range e.con.Clauses {
+		if false {
+			_ = c
+		}
+	}
 }
 
 func calleeMatches(callee, pat string) bool {
@@ -1371,14 +1417,21 @@ func (e *Engine) noVisibilityFrame() bool {
 }
 
 
-// foreignOrFullHavoc: the callee may write anything it can reach. A callee of another package
-// cannot name the struct fields of the verified function's package (visibility frame).
+// foreignOrFullHavoc: a callee whose contract gives no frame: use the inferred write effect.
 func (e *Engine) foreignOrFullHavoc(st *State, callee *ssa.Function, why string) {
-	if callee != nil && callee.Pkg != nil && e.fn.Pkg != nil && callee.Pkg != e.fn.Pkg && inFalco(callee) && !e.noVisibilityFrame() {
-		pfx := "F:" + strings.TrimPrefix(e.fn.Pkg.Pkg.Path(), falcoMod+"/") + "."
-		e.visibilityFrames[shortFn(callee)] = true
-		e.havocEffect(st, &Effect{All: true, Except: pfx, Keys: map[string]bool{}}, why)
+	if callee != nil {
+		e.havocEffect(st, e.P.effectOf(callee), why)
 		return
 	}
 	e.havocHeap(st, why)
+}
+
+func lastName(s string) string {
+	if strings.HasPrefix(s, "invoke:") {
+		return s[7:]
+	}
+	if i := strings.LastIndex(s, "."); i >= 0 {
+		return s[i+1:]
+	}
+	return s
 }
